@@ -37,7 +37,13 @@ first transition of the thread that ran last if it has one, else index 0.  So
 0 means "no context switch", and a schedule that has run out continues with
 defaults.  ``run`` returns at quiescence (no transition enabled).  Threads not
 finished at ``close()`` are unwound with a private BaseException while every
-simulated operation has become a no-op, and all threads are joined.
+simulated operation has become a no-op, and all threads are joined (and
+counted gone) before ``close`` returns.
+
+``dfs`` enumerates the schedules of a program by re-execution, with sleep sets
+(one representative per class of interleavings that differ only in the order
+of commuting transitions, see ``independent``) and an optional preemption
+bound.
 """
 import _thread
 import time
